@@ -30,13 +30,26 @@ func TestVerifC01Route(t *testing.T) {
 			rt.Fatalf("VF-INCONCLUSIVE generator produced a spec that validation rejects: %v\n%s", err, y)
 		}
 		nreq := rapid.IntRange(4, 16).Draw(rt, "nreq")
-		for i := 0; i < nreq; i++ {
-			if rapid.IntRange(0, 4).Draw(rt, "flip-backend") == 0 {
+		probes := vfBothProbes(srv)
+		if len(probes) > 12 {
+			probes = probes[:12]
+		}
+		if len(probes) > 0 {
+			vf.Class("case-with-probes-of-a-values-and-regexp-header-condition")
+		}
+		readings := vfAllChoices
+		for i := 0; i < nreq+len(probes); i++ {
+			if i < nreq && rapid.IntRange(0, 4).Draw(rt, "flip-backend") == 0 {
 				b := rapid.SampledFrom([]string{"p0", "p1", "p2", "p3"}).Draw(rt, "which-backend")
 				live[b] = !live[b]
 				vf.Class("backend-set-changed")
 			}
-			req := vfGenReqFor(rt, srv, nil)
+			var req vfReq
+			if i < nreq {
+				req = vfGenReqFor(rt, srv, nil)
+			} else {
+				req = probes[i-nreq]
+			}
 			acc, ambiguous := vfAcceptable(srv, req, live)
 			got := vfServe(m, mapper, req)
 
@@ -83,6 +96,11 @@ func TestVerifC01Route(t *testing.T) {
 
 			if _, ok := acc[got.key()]; !ok {
 				vf.Violation(rt, "route-mismatch", "request %s\nspec:\n%s\ngot %s, reference accepts %v", req, y, got.key(), vfKeys(acc))
+				return
+			}
+			// one server implements ONE reading of what the statement leaves open
+			if readings = vfConsistent(readings, srv, req, live, got.key()); len(readings) == 0 {
+				vf.Violation(rt, "no-single-reading-explains-all-answers", "every answer up to request %s fits some open reading on its own, but no single reading fits them all\nspec:\n%s\ngot %s", req, y, got.key())
 				return
 			}
 			if got.Status == 200 && got.Calls != 1 || got.Status != 200 && got.Calls != 0 {
